@@ -86,6 +86,22 @@ def evaluate(case):
                         fails.append(Fail("decode_wrong:" + e2, selfies=s[:200], want="".join(ptoks)[:200], got=str(back)[:200]))
                 if needs_pad:
                     classes.append("padded")
+                # results are the caller's: editing a returned encoding in place must not change any later result
+                if et != "label" and r[1] and case.get("edit_result"):
+                    got_hot = r[1] if et == "one_hot" else r[1][1]
+                    if got_hot and n > 0:
+                        snapshot = [list(row) for row in got_hot]
+                        row0 = got_hot[0]
+                        i1 = row0.index(1)
+                        row0[i1] = 0
+                        row0[(i1 + 1) % n] = 1
+                        if n > 1 and any(snapshot[k] != list(got_hot[k]) for k in range(1, len(got_hot))):
+                            fails.append(Fail("result_rows_share_storage", selfies=s[:200], enc_type=et))
+                        again = call(sf.selfies_to_encoding, s, dict(stoi), pad, et)
+                        if again != ("ok", want):
+                            fails.append(Fail("later_result_changed_by_editing_earlier_result", selfies=s[:200], enc_type=et,
+                                              want=str(want)[:200], got=str(again)[:200]))
+                        classes.append("caller_edits_returned_one_hot")
         if case.get("bad_dec_type") is not None:
             expect_raise("bad_enc_type_decoding", call(sf.encoding_to_selfies, [0], dict(itos), case["bad_dec_type"]))
         return Result(fails[0] if fails else None, nt, classes, sample=dict(selfies=s[:120], pad=pad, enc_type=et, vocab=n))
@@ -124,10 +140,21 @@ def evaluate(case):
         if vec and n > 0:
             for row in range(L):
                 vec[row * n + (row % n)] = 1
-        r = call(sf.batch_flat_hot_to_selfies, [vec], dict(itos))
+        good = []
+        for g in range(case.get("good_before", 0)):
+            v = [0] * (n * (g + 1))
+            for row in range(g + 1):
+                v[row * n + (row % n)] = 1
+            good.append(v)
+        batch = good + [vec]
+        r = call(sf.batch_flat_hot_to_selfies, batch, dict(itos))
         if extra % n != 0:
-            expect_raise("ragged_vector", r)
-        return Result(fails[0] if fails else None, True, ("ragged",), sample=dict(n=n, length=len(vec)))
+            expect_raise("ragged_vector_at_position_%s" % ("0" if not good else ">0"), r)
+        else:
+            want = ["".join(itos[row % n] for row in range(g + 1)) for g in range(len(good))] + ["".join(itos[row % n] for row in range(L))]
+            if extra == 0 and r != ("ok", want):
+                fails.append(Fail("batch_decode_wrong", want=want[:4], got=str(r)[:300]))
+        return Result(fails[0] if fails else None, True, ("ragged", "ragged_after_%d_good" % len(good)), sample=dict(n=n, length=len(vec), good_before=len(good)))
     raise ValueError(kind)
 
 
@@ -158,21 +185,21 @@ def gen_tokens(ch, vocab, max_len=20, foreign=0):
 
 def gen_case(ch):
     vocab = gen_vocab(ch)
-    w = ch.weighted([(10, "single"), (5, "batch"), (1, "ragged")])
+    w = ch.weighted([(10, "single"), (5, "batch"), (2, "ragged")])
     if w == "single":
         toks = gen_tokens(ch, vocab, foreign=ch.pick([0, 0, 0, 10]))
         if ch.bool(8) and "." not in vocab and len(toks) >= 2:
             toks.insert(1, ".")          # a dot without '.' in the vocabulary must raise
         pad = ch.int(-5, len(toks) + 10)
         et = ch.weighted([(4, "label"), (4, "one_hot"), (4, "both"), (1, "Label"), (1, ""), (1, "onehot")])
-        c = dict(kind="single", vocab=vocab, toks=toks, pad=pad, enc_type=et)
+        c = dict(kind="single", vocab=vocab, toks=toks, pad=pad, enc_type=et, edit_result=ch.bool(50))
         if ch.bool(10):
             c["bad_dec_type"] = ch.pick(["both", "", "LABEL", "hot"])
         return c
     if w == "batch":
         lists = [gen_tokens(ch, vocab, 10, foreign=ch.pick([0, 0, 0, 0, 8])) for _ in range(ch.int(0, 8))]
         return dict(kind="batch", vocab=vocab, lists=lists, pad=ch.int(-3, 15))
-    return dict(kind="ragged", vocab=vocab, L=ch.int(0, 5), extra=ch.int(0, 40))
+    return dict(kind="ragged", vocab=vocab, L=ch.int(0, 5), extra=ch.int(0, 40), good_before=ch.int(0, 3))
 
 
 def shard(ctx):
